@@ -93,7 +93,7 @@ def run(model, rep):
     # ---------------- CELLS (reduced; the full tables run under C02)
     cells = [c for c in c02.all_cells('quick') if c[1].startswith('num ') or c[1].startswith('lay nested') or c[1].startswith('pat case')]
     results = c02.run_cells(model, cells)
-    c02.report_cells(rep, 'C08.CELLS', results, 'src/python_minifier/{module,expression,token}_printer.py', lambda l: ' '.join(l.split(' ')[:2]).rstrip(':'), 300)
+    c02.report_cells(rep, 'C08.CELLS', results, 'src/python_minifier/{module,expression,token}_printer.py', lambda l: ' '.join(l.split(' ')[:2]).rstrip(':'), 700)
 
     # ---------------- RAISE inventory
     cg = CallGraph(model)
